@@ -270,7 +270,7 @@ theorem C03_exact_completion_statusline (cfg : Cfg) (line : Bytes) (hsl : StartL
 example : (Msg.mk .request [80, 79, 83, 84, 32, 47, 117, 32, 72, 84, 84, 80, 47, 49, 46, 49]
     [([72, 111, 115, 116], [97])] (.chunked (.chunk [49] [] [88] (.last [48] [])))).Valid {} := by
   refine ⟨⟨by decide, [80, 79, 83, 84], [47, 117], [72, 84, 84, 80, 47, 49, 46, 49], rfl, by decide,
-    by decide, fun _ => ⟨_, rfl⟩⟩, ?_, ?_⟩
+    by decide, fun _ => ⟨by decide, _, rfl⟩⟩, ?_, ?_⟩
   · intro kv hkv
     simp only [List.mem_singleton] at hkv
     subst hkv
